@@ -6,7 +6,9 @@ sid=$1; tier=${2:-quick}; pid=${sid%%-*}
 W=$(pwd)/.work/seedrepo-$sid; rm -rf $W; mkdir -p $W
 cp -r /repo $W/repo; rm -rf $W/repo/.git
 (cd $W/repo && patch -p1 -s < ../../../seeded/$sid/patch.diff) || { echo "$sid PATCH-FAILED"; rm -rf $W; exit 2; }
+rm -rf .work/alt-out/replays
 out=$(VERIF_REPO=$W/repo bin/check $pid $tier 2>&1); rc=$?
 echo "$out" | grep "^VIOLATION\|^check " | cut -c1-220
+[ $rc -eq 1 ] && echo "HOW $(tools/seed_summary.py $pid)"
 rm -rf $W
 exit $rc
